@@ -1,0 +1,86 @@
+// SPDX-FileCopyrightText: 2026 The Pion community <https://pion.ly>
+// SPDX-License-Identifier: MIT
+
+//go:build verif
+
+package ice
+
+import (
+	"context"
+	"net"
+	"strconv"
+)
+
+// Exports for the external verification harness (/verif). Built only with -tags verif.
+
+// VerifNotifier wraps a real handlerNotifier whose three handler functions are owned by the
+// harness. Values are identified by an integer carried by the notification itself
+// (ConnectionState value, Candidate ID, CandidatePair id).
+type VerifNotifier struct {
+	h *handlerNotifier
+}
+
+// VerifNewNotifier builds a handlerNotifier exactly as newAgent does (one value, all three
+// streams in use so that the shared mutex / done channel / WaitGroup are exercised).
+func VerifNewNotifier(handler func(stream, id int)) *VerifNotifier {
+	return &VerifNotifier{h: &handlerNotifier{
+		connectionStateFunc: func(s ConnectionState) { handler(0, int(s)) },
+		candidateFunc: func(c Candidate) {
+			id, _ := strconv.Atoi(c.ID())
+			handler(1, id)
+		},
+		candidatePairFunc: func(p *CandidatePair) { handler(2, int(p.id)) },
+		done:              make(chan struct{}),
+	}}
+}
+
+// Enqueue enqueues value id on stream 0 (connection states), 1 (candidates) or 2 (selected pairs).
+func (n *VerifNotifier) Enqueue(stream, id int) {
+	switch stream {
+	case 0:
+		n.h.EnqueueConnectionState(ConnectionState(id))
+	case 1:
+		n.h.EnqueueCandidate(&CandidateHost{candidateBase: candidateBase{id: strconv.Itoa(id)}})
+	default:
+		n.h.EnqueueSelectedCandidatePair(&CandidatePair{id: uint64(id)}) //nolint:gosec
+	}
+}
+
+// Close is handlerNotifier.Close.
+func (n *VerifNotifier) Close(graceful bool) {
+	n.h.Close(graceful)
+}
+
+// VerifNotifAddCandidate is Agent.addCandidate with a caller-supplied context (the gather
+// goroutines call it with their cycle's context).
+func VerifNotifAddCandidate(ctx context.Context, a *Agent, cand Candidate, conn net.PacketConn) error {
+	return a.addCandidate(ctx, cand, conn)
+}
+
+// VerifNotifGatherContext runs on the loop and returns the context of the current gather cycle
+// as GatherCandidates creates it (derived from the loop), installing its cancel function as
+// the agent's gatherCandidateCancel, without starting any gathering goroutine.
+func VerifNotifGatherContext(a *Agent) (context.Context, error) {
+	var ctx context.Context
+	err := a.loop.Run(a.loop, func(loopCtx context.Context) {
+		a.gatherCandidateCancel()
+		var cancel context.CancelFunc
+		ctx, cancel = context.WithCancel(loopCtx)
+		a.gatherCandidateCancel = cancel
+	})
+
+	return ctx, err
+}
+
+// VerifNotifSetGatheringState is Agent.setGatheringState.
+func VerifNotifSetGatheringState(ctx context.Context, a *Agent, st GatheringState) (bool, error) {
+	return a.setGatheringState(ctx, st)
+}
+
+// VerifNotifLocalUfrag reads the current local ufrag on the loop.
+func VerifNotifLocalUfrag(a *Agent) (string, error) {
+	var u string
+	err := a.loop.Run(a.loop, func(context.Context) { u = a.localUfrag })
+
+	return u, err
+}
